@@ -419,6 +419,19 @@ class World:
             self._done(op)
             self._raise("WriteError", op, "write on closed stream")
         fault = self._fault_for(op)
+        if fault == "WriteErrorAfterDelivery":
+            # the bytes went out (the kernel had accepted them) and the error is reported afterwards, e.g. a peer that has stopped reading and
+            # answers early: the server received the data and what it has sent stays readable. Only the CLIENT's sending side is gone.
+            pipe.written += data
+            if not pipe.eof:
+                pipe.peer.on_data(data)
+            pipe.send_broken = True
+            self.fired_faults[-1]["fault"] = "WriteError"
+            self._done(op)
+            self._raise("WriteError", op, "injected WriteError (after the bytes were delivered)")
+        if getattr(pipe, "send_broken", False):
+            self._done(op)
+            self._raise("WriteError", op, "write on a connection whose sending side has failed")
         if fault == "WriteError":
             pipe.broken = True
             del pipe.inbound[:]
